@@ -38,6 +38,10 @@ def run(ctx):
         R.run_cases(ctx, stream, cases, PROJ, oracle, classify)
     # the CLI end to end (info yaml, file names, csv files) on a sample of the same generators
     cli_cases = [gen(ctx, kind) for stream, kind, n in streams(ctx) for _ in range(max(10, n // 12))]
+    # … and on several-haplotype maps (>= 2 per-assembly rows: only then info.yaml carries TOTALS next to the rows) with contaminants, same-tag
+    # homologues and input names with and without a haplotype prefix: breaks / joins OUTSIDE every per-assembly row exist only there, so only there
+    # "total = sum of the rows" is false (wave 11, C11i)
+    cli_cases += [R.make_case(ctx.rng, k) for k in ("tagged2", "hapmix", "hapnames", "homtag", "tagged2") for _ in range(24 if ctx.thorough else 6)]
     R.run_cli_cases(ctx, "cli-end-to-end", cli_cases, classify, only=["haplotig", "yaml"])
     # history: the same maps remapped AFTER other maps of the same input on ONE IndexedAssembly object (in-process state must not matter)
     hk = ['script', 'dupnames', 'tagged']
